@@ -25,15 +25,15 @@ var rootPrincipal = scen.Principal{ID: "R", Keys: []string{"root"}}
 // polShape is the compact, mutable description the generator evolves; it is
 // expanded to a scen.Policy by build().
 type polShape struct {
-	Main     []string `json:"main"` // keys authorized for main
-	MainThr  int      `json:"main_thr"`
-	Rel      []string `json:"rel"` // keys of the top-level rel rule
-	RelThr   int      `json:"rel_thr"`
-	RelDeleg int      `json:"rel_deleg"` // 0 none, 1 one delegated file, 2 two levels
-	Rel1     []string `json:"rel1"`
-	Rel1Thr  int      `json:"rel1_thr"`
-	Rel2     []string `json:"rel2"`
-	Rel2Thr  int      `json:"rel2_thr"`
+	Main     []string          `json:"main"` // keys authorized for main
+	MainThr  int               `json:"main_thr"`
+	Rel      []string          `json:"rel"` // keys of the top-level rel rule
+	RelThr   int               `json:"rel_thr"`
+	RelDeleg int               `json:"rel_deleg"` // 0 none, 1 one delegated file, 2 two levels
+	Rel1     []string          `json:"rel1"`
+	Rel1Thr  int               `json:"rel1_thr"`
+	Rel2     []string          `json:"rel2"`
+	Rel2Thr  int               `json:"rel2_thr"`
 	Globals  []scen.GlobalRule `json:"globals,omitempty"`
 }
 
@@ -204,11 +204,11 @@ func mutateShape(r *rand.Rand, s polShape) polShape {
 var signersPool = []string{"k1", "k2", "k3", "k4", "kx", ""}
 
 type histOpts struct {
-	Len          int
-	Propagation  bool // allow propagation entries
-	Globals      bool
-	ForcePushes  bool
-	NoApprovals  bool
+	Len         int
+	Propagation bool // allow propagation entries
+	Globals     bool
+	ForcePushes bool
+	NoApprovals bool
 }
 
 // genHistory samples a long history. The first event is always a policy.
@@ -218,7 +218,7 @@ func genHistory(r *rand.Rand, o histOpts) *scen.History {
 	add := func(e scen.Event) int { h.Events = append(h.Events, e); return len(h.Events) - 1 }
 	pol := shape.build()
 	add(scen.Event{Kind: "policy", Policy: &pol, Signer: "root"})
-	lastEntry := map[string]int{}  // ref -> event index of latest entry
+	lastEntry := map[string]int{} // ref -> event index of latest entry
 	lastUnskippedContent := map[string]string{}
 	pendingContent := map[string]string{}
 	wantFix := map[string]bool{}
